@@ -62,10 +62,13 @@ impl KVVStore for MemoryKVVStore {
 
     fn put_batch(&self, kvvs: Vec<KVV>) -> Result<(), Error> {
         let mut data = self.data.lock().unwrap();
+        // entries are checked in order against the batch applied so far, so that a batch
+        // behaves like the same sequence of put_with_version calls (all or nothing)
+        let mut staged: BTreeMap<&str, &(u64, Vec<u8>)> = BTreeMap::new();
         for kvv in kvvs.iter() {
             let key = &kvv.0;
             let (version, value) = &kvv.1;
-            let existing = data.get(key);
+            let existing = staged.get(key.as_str()).copied().or_else(|| data.get(key));
             if let Some((ver, val)) = existing {
                 if version < ver {
                     error!("version mismatch for {}: {} < {}", key, version, ver);
@@ -77,9 +80,12 @@ impl KVVStore for MemoryKVVStore {
                         error!("value mismatch for {}: {}", key, version);
                         return Err(Error::VersionMismatch);
                     }
+                    continue;
                 }
             }
+            staged.insert(key.as_str(), &kvv.1);
         }
+        drop(staged);
         for kvv in kvvs.into_iter() {
             let key = kvv.0;
             data.insert(key.to_string(), kvv.1);
